@@ -18,7 +18,7 @@ R = {
  "C06-2": (True, "limits::ConnectionLimits::accept_established_connection (Verus): is_listener && max_incoming is None => both sets unchanged"),
  "C14-1": (True, "kbucket::RoutingTable::on_connection_established (Verus): a stored peer is Connected afterwards for either endpoint direction — caught after that function was brought under contract; missed before"),
  "C14-2": (True, "closest_iter::ClosestBucketsIter::new (Verus): initial state is Start(..)"),
- "C16-1": (False, "Kademlia::open_substream_or_dial (pending_dials overwrite) is in the async event loop over HashMap<PeerId, Vec<..>>::entry: not_decided for C16"),
+ "C16-1": (True, "kad_dispatch::Kademlia::open_substream_or_dial (Verus): an accepted action is parked BEHIND everything already parked for the peer's pending dial — *missed at first* (I had taken the function for part of the async loop; it is synchronous) → brought under contract once vstd's Entry specifications were found"),
  "C16-2": (True, "target_peers::c16_new_quorum_empty_targets (Kani, natively replayed): required acknowledgements >= 1 for an empty target set — caught after the harness for `new` was added; missed before"),
  "C18-1": (True, "peer_id::PeerId::from_public_key_protobuf (Verus): len <= 42 => identity multihash — caught after the Verus unit was added; missed before"),
  "C18-2": (True, "peer_id::c18_from_multihash_agrees_with_reference and c18_from_multihash_contract (Kani, natively replayed)"),
@@ -30,11 +30,15 @@ R = {
  "C13-1": (False, "RequestResponseProtocol::on_connection_established is an async fn (Verus has no async; Kani cannot compile the tokio types): everything after acceptance is not_decided for C13"),
  "C13-2": (False, "RequestResponseProtocol::on_inbound_substream (inbound concurrency bound) is an async fn: not_decided for C13"),
  "C02-3": (True, "noise_read::NoiseSocket::reset_read_state (Verus): frame clause `current_frame_size` unchanged (a remembered frame length must survive the buffer reset) — second, focused seeding round on functions under contract"),
- "C02-4": (False, "NoiseSocket::poll_read rejects valid frames above MAX_FRAME_LEN with an error: the read-path contract constrains what is delivered (never altered plaintext, state invariant) and allows an error return at any time; 'a well-formed stream is never refused' needs the cause of an error, which no postcondition over this function's state can express (the parsed length is not retained) — listed under not_decided for C02"),
+ "C02-4": (True, "noise_read_benign::NoiseSocket::poll_read (Verus): under a benign environment (carrier and cipher never fail, every length prefix valid) poll_read never returns an error — *missed at first* (the read contract allowed an error at any time) → the same text is now verified a second time under the benign-environment contract"),
  "C03-3": (True, "msdialer::WebRtcDialerState::propose and ::propose_next_fallback (Verus): the names still to be proposed, most preferred first, are exactly the rest of the given list"),
  "C03-4": (True, "mslistener::webrtc_listener_negotiate (Verus): the confirmation echoes the proposed name with the header iff the header arrived in this payload"),
  "C20-3": (True, "bitswap_batch::extract_next_batch (Verus): every block of the returned batch is <= max_batch_size, for every queue (the seed returns a lone oversized block)"),
  "C20-4": (True, "bitswap_block::block_to_response (Verus): the cid's multihash is the FULL digest of exactly the data, whatever length the prefix announces"),
+ "C17-1": (True, "kad_store::MemoryStore::put (Verus): every record held afterwards is an old one or the offered one WITH a value below max_record_size_bytes — also when it overwrites an existing key"),
+ "C17-2": (True, "kad_store::MemoryStore::remove_local_provider (Verus): what stays under the key is the old list without one entry, in the same order, still sorted — *missed at first* (function not under contract) → brought under contract"),
+ "C04-3": (True, "substream_sink::Substream::poll_flush (Verus): Ready(Ok) => nothing parked and nothing queued (first run: undecided, the seed calls VecDeque::is_empty which vstd does not specify → assumed contract added); also the bounded Kani harness c04_sink_flush_complete_means_drained"),
+ "C04-4": (True, "substream_sink::Substream::start_send (Verus): refused exactly when the item length differs from the fixed frame size"),
  "C20-2": (False, "config constant MAX_BATCH_SIZE: the relation between batch size and the protobuf-encoded message size (send_response, async) is not_decided for C20"),
 }
 for k, (det, why) in R.items():
